@@ -19,7 +19,7 @@ NS = ('xmlns:office="urn:oasis:names:tc:opendocument:xmlns:office:1.0" '
       'xmlns:presentation="urn:oasis:names:tc:opendocument:xmlns:presentation:1.0" '
       'xmlns:number="urn:oasis:names:tc:opendocument:xmlns:datastyle:1.0" office:version="1.2"')
 
-MIMES = {"odt": "application/vnd.oasis.opendocument.text", "ods": "application/vnd.oasis.opendocument.spreadsheet",
+MIMES = {"odf": "application/vnd.oasis.opendocument.formula", "odt": "application/vnd.oasis.opendocument.text", "ods": "application/vnd.oasis.opendocument.spreadsheet",
          "odp": "application/vnd.oasis.opendocument.presentation", "odg": "application/vnd.oasis.opendocument.graphics"}
 
 ODT_SUPPORTS = {"p", "h", "ul", "ul.nested", "tbl", "tbl.nested", "cell.multi", "tbx", "r", "tab", "br", "a",
@@ -259,3 +259,15 @@ def write_odp(deck: dict, kind="odp") -> bytes:
 
 def write_odg(deck: dict) -> bytes:
     return write_odp(deck, kind="odg")
+
+
+def write_odf_formula(ids, props=None) -> bytes:
+    """OpenDocument Formula: MathML with one mi per id in the presentation part and three annotations
+    (StarMath / TeX / spoken form) carrying further tokens -- ids = [[presentation ids], [annotation ids]]."""
+    pres, ann = ids
+    enc = ["StarMath 5.0", "TeX", "application/x-spoken"]
+    content = ('<?xml version="1.0" encoding="UTF-8"?><math xmlns="http://www.w3.org/1998/Math/MathML" display="block">'
+               "<semantics><mrow>" + "<mo>+</mo>".join(f"<mi>{word(i)}</mi>" for i in pres) + "</mrow>"
+               + "".join(f'<annotation encoding="{enc[k % 3]}">{word(i)} plus {word(i)}b</annotation>' for k, i in enumerate(ann))
+               + "</semantics></math>")
+    return _package("odf", content, None, props, None)
